@@ -200,6 +200,10 @@ class Runner(object):
                     f.write(b"OLD TARGET " * 60)
                 os.symlink(os.path.join("real", "target.dat"), os.path.join(work, "lnk.dat"))
                 dest_arg, dest_rel, pre = "lnk.dat", os.path.join("work", "lnk.dat"), False
+            if pre == "resaved" and not broken:
+                # call history: this very document was saved to this very name before (no faults), and somebody else
+                # has written the file since - the judged call finds foreign content like any other pre-existing file
+                self.ser(d, fmt, dest_arg)
             if pre:
                 with open(dest_arg, "wb") as f:
                     f.write(b"OLD CONTENT " * 50)
@@ -304,7 +308,7 @@ def real_main(tier, seed):
     import time
     t0 = time.time()
     sizes = ["small", "20kB"] + (["200kB"] if tier == "thorough" else [])
-    items = [(tier, s, f, n, p, k) for s in sizes for f in ("json", "xml", "rdf", "provn") for n in NAMES for p in (False, True)
+    items = [(tier, s, f, n, p, k) for s in sizes for f in ("json", "xml", "rdf", "provn") for n in NAMES for p in (False, True, "resaved")
              for k in NAME_KINDS.get(n, ("str",))]
     ctx = multiprocessing.get_context("fork")
     viol = {}
@@ -337,7 +341,7 @@ def real_main(tier, seed):
     cov = {
         "evaluations": total, "distinct_nontrivial": total - outcomes.get("written:none", 0),
         "states": total, "transitions": total, "traces_validated_against_impl": total,
-        "rule": ("full product of %d formats x %d document sizes x %d destination names x pre-existing/absent x every "
+        "rule": ("full product of %d formats x %d document sizes x %d destination names x absent / pre-existing / pre-existing after this document had been saved there before x every "
                  "fault schedule with <= %d deviation(s) from the fault-free system-call sequence (the k-th write fails "
                  "or is short for every k, rename fails / answers EXDEV, the copy fallback's steps fail, unlink fails, "
                  "the serialiser raises); a case is distinct by (format, size, name, pre-existing, schedule); "
